@@ -927,26 +927,104 @@ func runC01ExtTime(c *Ctx) {
 			}
 			n++
 			construct := FuncName(fn) + "|" + strings.TrimPrefix(name, "github.com/bmatcuk/doublestar/v4.") + " on a pattern of the configuration file"
-			// a bound on the brace groups: strings.Count(<pattern>, "{") compared with a constant anywhere in the functions
-			// that validate the configuration
-			bounded := false
-			for _, g := range p.Funcs {
-				for _, cc := range findCalls(g, "strings.Count") {
-					if s, ok := constString(cc.Common().Args[1]); ok && s == "{" {
-						bounded = true
+			exp := "the matcher is exponential in the number of {,} groups and the pattern comes unbounded from the `paths:` keys of the configuration file: 64 groups (222 bytes) never finish"
+			pat := call.Call.Args[0]
+			if _, isConst := constString(pat); isConst {
+				c.ok(construct, call.Pos(), "the pattern is a constant of the program")
+				return
+			}
+			field, _ := keyOfField(pat, 0)
+			if field == "" {
+				c.bad(construct, call.Pos(), exp+" (the pattern is not a key of a map field ranged over here: its origin is unknown)")
+				return
+			}
+			// (a) on the way to the matcher: a test of the brace groups of this very pattern whose over-bound outcome cannot
+			// reach the call
+			for _, b := range fn.Blocks {
+				ifi, ok := b.Instrs[len(b.Instrs)-1].(*ssa.If)
+				if !ok || b == call.Block() || !b.Dominates(call.Block()) {
+					continue
+				}
+				counted, over, ok := braceBound(ifi.Cond, 0)
+				if !ok || stripConv(counted) != stripConv(pat) {
+					continue
+				}
+				overSucc := b.Succs[1]
+				if over {
+					overSucc = b.Succs[0]
+				}
+				if !reachableBlocks([]*ssa.BasicBlock{overSucc}, map[*ssa.BasicBlock]bool{b: true})[call.Block()] {
+					c.ok(construct, call.Pos(), "a pattern with more brace groups than a constant bound is skipped before the matcher is called")
+					return
+				}
+			}
+			// (b) when the configuration is read: every function that decodes into the owner of the field bounds all keys
+			// and fails otherwise, and nothing else writes the field
+			owner := field[:strings.Index(field, ".")]
+			readers := p.decodersOf(owner)
+			isReader := map[*ssa.Function]bool{}
+			why := ""
+			if len(readers) == 0 {
+				why = "no function that decodes a " + owner + " was found"
+			}
+			for _, g := range readers {
+				isReader[g] = true
+				ok, w := boundsKeysOf(g, field)
+				if !ok {
+					// one step into a validating helper whose failure is handed on
+					for _, hc := range g.Blocks {
+						for _, hi := range hc.Instrs {
+							cl, isCall := hi.(*ssa.Call)
+							if !isCall || ok {
+								continue
+							}
+							h := staticCallee(&cl.Call)
+							if h == nil || !inModule(h) || h.Blocks == nil {
+								continue
+							}
+							if hok, _ := boundsKeysOf(h, field); !hok || !errorReaches(cl, map[ssa.Value]bool{}) {
+								continue
+							}
+							passed := true
+							for _, rb := range g.Blocks {
+								if ret, isRet := rb.Instrs[len(rb.Instrs)-1].(*ssa.Return); isRet && !failureReturn(ret) && !hc.Dominates(rb) {
+									passed = false
+								}
+							}
+							ok = passed
+						}
+					}
+				}
+				if !ok && why == "" {
+					why = w
+				}
+			}
+			if why == "" {
+				for _, w := range sortedFuncNames(p.mapFieldWriters(field)) {
+					if !isReader[p.funcByName(w)] {
+						why = field + " is also written by " + w + ", which does not read the configuration file"
+						break
 					}
 				}
 			}
-			if bounded {
-				c.ok(construct, call.Pos(), "the number of brace groups of a pattern is bounded when the configuration is read")
+			if why == "" {
+				c.ok(construct, call.Pos(), "the number of brace groups of every key of "+field+" is compared with a constant when the configuration is read, and reading fails over the bound")
 			} else {
-				c.bad(construct, call.Pos(), "the matcher is exponential in the number of {,} groups and the pattern comes unbounded from the `paths:` keys of the configuration file: 64 groups (222 bytes) never finish")
+				c.bad(construct, call.Pos(), exp+" ("+why+")")
 			}
 		})
 	}
 	if n == 0 {
 		c.anchorMissing("call of doublestar.Match*")
 	}
+}
+
+func sortedFuncNames(m map[*ssa.Function]bool) []string {
+	set := map[string]bool{}
+	for f := range m {
+		set[FuncName(f)] = true
+	}
+	return sortedKeys(set)
 }
 
 // ---- C15.ALIAS ----
